@@ -205,6 +205,25 @@ where
                                     );
                                     return Poll::Ready(Err(NegotiationError::Failed));
                                 }
+                                // The application data of a `V1Lazy` dialer is arbitrary, so
+                                // instead of an `InvalidMessage` it may just as well trip the
+                                // frame length check (e.g. a leading zero byte or two bytes with
+                                // the MSB set), the varint decoding of a protocol list or the
+                                // validation of a protocol name. All of these are garbage too.
+                                if matches!(
+                                    &err,
+                                    ProtocolError::InvalidProtocol | ProtocolError::TooManyProtocols
+                                ) || matches!(
+                                    &err,
+                                    ProtocolError::IoError(e)
+                                        if e.kind() == std::io::ErrorKind::InvalidData
+                                ) {
+                                    tracing::trace!(
+                                        "Listener: Negotiation failed with malformed \
+                                        data after protocol rejection."
+                                    );
+                                    return Poll::Ready(Err(NegotiationError::Failed));
+                                }
                             }
 
                             return Poll::Ready(Err(From::from(err)));
